@@ -426,6 +426,12 @@ def cases(tier, seed):
         yield {'kind': 'fixed', 'args': a}
     for a in NEGATIVE_REQUESTS:
         yield {'kind': 'negative', 'args': a}
+    # the same pages under every state of the terminal-width variables of the environment (widths below 20 columns are
+    # left out: nothing fits there)
+    for cols in (None, '', '0', 'abc', '-1', '20', '80', '250', '99999'):
+        for a in ([], ['help'], ['case'], ['setup'], ['instructions'], ['type'], ['concept'], ['actor'], ['reporter'],
+                  ['setup', 'file'], ['type', 'string'], ['concept', 'sandbox'], ['suite', 'cases']):
+            yield {'kind': 'width', 'args': a, 'columns': cols}
     for n in u['instr']:
         yield {'kind': 'instr-any', 'name': n}
         for ph in PHASES_WITH_INSTRUCTIONS:
@@ -703,7 +709,7 @@ def run_case(case, ctx):
     res = Res(case)
     kind = case['kind']
     {'html': _html_case, 'meta': _meta_case, 'phase-listing': _phase_listing, 'suite-listing': _suite_listing,
-     'entity-listing': _entity_listing, 'fixed': _fixed, 'negative': _negative, 'instr': _instr,
+     'entity-listing': _entity_listing, 'fixed': _fixed, 'negative': _negative, 'instr': _instr, 'width': _width,
      'instr-any': _instr_any, 'suite-instr': _suite_instr, 'entity': _entity}[kind](w, res, case, ctx.tier)
     return res.result(w)
 
@@ -802,6 +808,34 @@ def _fixed(w, res, case, tier):
         res.bad('`help %s` (a request of the `help help` synopsis) is not rendered: %s' % (' '.join(args), why),
                 observed=_brief(w.help(args)))
     res.classes.append(('fixed', ' '.join(args), 'rendered' if ok else 'refused'))
+
+
+def _width(w, res, case, tier):
+    args, cols = case['args'], case['columns']
+    saved = {k: os.environ.get(k) for k in ('COLUMNS', 'LINES')}
+    try:
+        if cols is None:
+            os.environ.pop('COLUMNS', None)
+        else:
+            os.environ['COLUMNS'] = cols
+            os.environ['LINES'] = cols
+        r = w.ses.run(['help'] + list(args), mode=None)
+    finally:
+        for k, v in saved.items():
+            if v is None:
+                os.environ.pop(k, None)
+            else:
+                os.environ[k] = v
+    w.ctx.count('c20.page_requests')
+    w.ctx.count('c20.width_variants_rendered')
+    res.evals += 1
+    ok = r.exc is None and r.rc == 0 and r.out.strip() != '' and r.err == ''
+    if r.timed_out:
+        w.inconclusive.append('watchdog during help %r' % (args,))
+    elif not ok:
+        res.bad('`help %s` with COLUMNS=%r in the environment is not rendered: exit code %r, stdout %d characters, stderr %r%s'
+                % (' '.join(args), cols, r.rc, len(r.out), r.err[-200:], (' exception ' + r.exc[-200:]) if r.exc else ''))
+    res.classes.append(('width', ' '.join(args), repr(cols), 'rendered' if ok else 'refused'))
 
 
 def _negative(w, res, case, tier):
